@@ -17,7 +17,7 @@ type closureVar struct {
 	Def   ast.Stmt // the defining statement (v := func… / var v = func…)
 	Calls []*ast.CallExpr
 	Blank []ast.Stmt // `_ = v` statements (left by the inliner's parameter prelude): not a use
-	Only  bool // every use is a plain call outside the literal itself, not deferred and not started as a goroutine
+	Only  bool       // every use is a plain call outside the literal itself, not deferred and not started as a goroutine
 }
 
 // localClosures lists the closure variables of a function declaration.
